@@ -1,0 +1,33 @@
+//go:build verif
+
+// Verification hooks for property C04 (sortition). Thin exported wrappers over the unexported
+// functions of sortition.go; the real functions run, nothing is re-implemented here.
+// Compiled only with `-tags verif`.
+
+package ucon
+
+import (
+	"math/big"
+
+	"github.com/youchainhq/go-youchain/common"
+)
+
+// VerifChoose calls the real choose(hash, w, p).
+func VerifChoose(hash common.Hash, w *big.Int, p float64) int64 {
+	return choose(hash, w, p)
+}
+
+// VerifSearch calls the real search(n, f).
+func VerifSearch(n int64, f func(int64) bool) int64 {
+	return search(n, f)
+}
+
+// VerifComputePriority calls the real computePriority(hash, j).
+func VerifComputePriority(hash common.Hash, j *big.Int) common.Hash {
+	return computePriority(hash, j)
+}
+
+// VerifMaxVrfHashValue returns a copy of the package constant 2^256-1 used as the divisor of the VRF output.
+func VerifMaxVrfHashValue() *big.Int {
+	return new(big.Int).Set(maxVrfHashValue)
+}
